@@ -2810,8 +2810,8 @@ class XonshParser(Parser):
     def fstring_conversion(self) -> int | None:
         # fstring_conversion: '!' NAME
         mark = self._mark()
-        if (self.expect("!")) and (conv := self.name()):
-            return self.check_fstring_conversion(conv)
+        if (a := self.expect("!")) and (conv := self.name()):
+            return self.check_fstring_conversion(a, conv)
         self._reset(mark)
         return None
 
